@@ -226,8 +226,10 @@ class Case:
                 # both PyTorch conventions are accepted: a buffer of zeros (a later step sees a zero gradient) or no
                 # buffer at all (a later step skips the parameter); the reference mirrors what the optimizer left
                 for r, p in zip(refs, params):
-                    if r.requires_grad:
+                    if r.requires_grad and r.grad is not None:
                         r.grad = None if gradof(p) is None else [0 * x for x in r.p]
+                    # a parameter that holds no gradient has nothing to clear: under either convention it still has none
+                    # afterwards, and the next step() leaves it alone (PyTorch skips parameters whose .grad is None)
             else:
                 opt.step()
                 for r in refs:
